@@ -15,14 +15,24 @@
   (requests strictly before the k-th vertex request); `tieSink inv k e` (real `BuffersBuilder`,
   optionally `InvertWinding`, behind the injector that refuses the k-th vertex).
 
-  False of the current code, kept visible:
-  * `rect_circle_trace` — `fill_rectangle` / `fill_circle` leave through `?` without
-    `abort_geometry` (`rect_circle_trace_witness`, `rect_circle_buffers_witness`); what does hold is
-    `rect_circle_trace_partial`; the repaired control flow satisfies the full statement
-    (`rect_circle_trace_fixed`).
-  * after a latched error the stroker may still hand `VertexId::INVALID` to `add_triangle`
-    (observed on the real code by the oracle); the model leaves the post-error requests arbitrary
-    (`post`), so `stroke_ids_fresh_partial` speaks about the requests before the first refusal only.
+  History (the model mirrors the code, so these are no longer theorems — they were, against the
+  code before the fixes, and the oracle clauses/classes that caught them are still active):
+  * lyon 4b89a854 "fill_rectangle and fill_circle abort the geometry when the builder refuses a
+    vertex".  Before it the fast paths left through `?` without `abort_geometry`.  Former witnesses
+    on the old `shapeRun` (error branch `⟨x.st, begin :: x.calls, Err e⟩`):
+    `rect_circle_trace_witness` — rectangle, builder refusing the 3rd vertex: trace
+    `[begin, V0, V1, V!]`, `Err(TooManyVertices)`, no terminator; `circle_trace_witness` — depth 1,
+    6th vertex refused: `[begin, V0, V1, V2, V3, T0 3 1, T1 3 2, V4, T1 4 0, V!]`;
+    `rect_circle_buffers_witness` — MAX = 5, two prior vertices: returns `TooManyVertices` and leaves
+    `[100, 101, 0, 1, 2, 3]` behind; `rect_circle_trace_partial` — the error is returned and the trace
+    is the protocol trace with its `abort` missing.  Now: `rect_circle_trace`,
+    `rect_circle_all_or_nothing`.
+  * lyon 4ae25521 "the stroker stops emitting geometry once a builder error is latched".  Before it
+    the model had an arbitrary request sequence `post` between the latched error and the abort,
+    `stroke_ids_fresh_partial` covered only the requests before the first refusal, and
+    `stroke_ids_fresh_witness` showed `[begin, V!, V0, V1, T1 0 4294967295, abort]` (the real stroker
+    did pass `VertexId::INVALID` to `add_triangle`).  Now: `stroke_ids_fresh` and the exact
+    `skeleton_trace_stroke_fault_at_k`.
 -/
 import LyonVerif.Lemmas.C04Spec
 
@@ -67,26 +77,14 @@ theorem fill_bad_tolerance {σ : Type} (S : Sink σ) (core : List CReq) (coreErr
 
 /-- **Stroke** (`StrokeBuilderImpl::new … build`, all `tessellate*` entry points and the
 `StrokeBuilder` path-builder interface): `begin` (in the constructor), body calls, then `end` and
-`Ok` — or, if a vertex was refused, the FIRST refusal is latched, whatever the core does afterwards
-(`post`, arbitrary, later refusals ignored) stays in the body, and the call ends with exactly one
-`abort` and returns that first error. -/
-theorem skeleton_trace_stroke {σ : Type} (S : Sink σ) (events : List (List CReq)) (post : List CReq) (s : σ) :
-    Protocol (strokeRun S events post s).trace (strokeRun S events post s).result := by
-  have hq := strokeEvents_calls S events (S.begin s) []
-  unfold strokeRun
-  dsimp only
-  revert hq
-  generalize strokeEvents S events (S.begin s) [] = x
-  intro hq
-  cases hx : x.err with
-  | none =>
-    simp only [QCalls, hx] at hq
-    simpa [hx] using protocol_ok x.calls hq
-  | some e =>
-    simp only [QCalls, hx] at hq
-    obtain ⟨pre, hpre, hall⟩ := hq
-    have := protocol_refused pre (runIgn S post x.st x.ids).2 e hall (runIgn_body S post x.st x.ids)
-    simpa [hx, hpre] using this
+`Ok` — or, if a vertex is refused, that refusal is the last body call (`step`, `fixed_width_step`,
+`end` do nothing once the error is latched), followed by exactly one `abort`, and the call returns
+that error. -/
+theorem skeleton_trace_stroke {σ : Type} (S : Sink σ) (events : List (List CReq)) (s : σ) :
+    Protocol (strokeRun S events s).trace (strokeRun S events s).result := by
+  obtain ⟨h1, h2, _⟩ := strokeRun_eq S events s
+  rw [h1, h2]
+  exact skeleton_trace_fill S events.flatten none s
 
 /-- What `Protocol` means in counts: exactly one `begin`, and it is the first call; exactly one
 terminator, and it is the last call. -/
@@ -161,32 +159,19 @@ theorem fill_all_or_nothing (inv : Bool) (k : Nat) (e : GErr) (b : BB) (n : Nat)
         simp only [hxe, tieSink_endG, Bool.not_true, Bool.false_eq_true, if_false]
         exact ⟨by simp, fun _ => ⟨hx.vs.choose, hx.is.choose, hx.vs.choose_spec, hx.is.choose_spec⟩⟩
 
-/-- **Stroke, all-or-nothing**: the same for the stroke skeleton — whatever the core still does
-between the latched error and `build()` (`post` arbitrary, including further vertices that are
-accepted), the abort restores the caller's buffers exactly. -/
+/-- **Stroke, all-or-nothing**: the same for the stroke skeleton, for every fault position and for
+the builder's own overflow. -/
 theorem stroke_all_or_nothing (inv : Bool) (k : Nat) (e : GErr) (b : BB) (n : Nat)
-    (events : List (List CReq)) (post : List CReq)
+    (events : List (List CReq))
     (hv : b.buf.vertices.length < idxMod) (hi : b.buf.indices.length < idxMod) :
-    let o := strokeRun (tieSink inv k e) events post (b, n)
+    let o := strokeRun (tieSink inv k e) events (b, n)
     (o.result ≠ none → o.st.1.buf = b.buf) ∧
     (o.result = none → ∃ vs is, o.st.1.buf.vertices = b.buf.vertices ++ vs ∧
         o.st.1.buf.indices = b.buf.indices ++ is) := by
   intro o
-  have hP := tieSink_preserves inv k e b.buf
-  have h0 : Ext b.buf ((tieSink inv k e).begin (b, n)).1 := by
-    rw [tieSink_begin]; exact Ext.ofBegin b hv hi
-  have hx := strokeEvents_preserves hP events _ [] h0
-  simp only [o, strokeRun]
-  revert hx
-  generalize strokeEvents (tieSink inv k e) events ((tieSink inv k e).begin (b, n)) [] = x
-  intro hx
-  cases hxe : x.err with
-  | some e' =>
-    have hy := runIgn_preserves hP post x.st x.ids hx
-    simp [hxe, tieSink_abort, hy.abort]
-  | none =>
-    simp only [hxe, tieSink_endG]
-    exact ⟨by simp, fun _ => ⟨hx.vs.choose, hx.is.choose, hx.vs.choose_spec, hx.is.choose_spec⟩⟩
+  obtain ⟨_, h2, h3⟩ := strokeRun_eq (tieSink inv k e) events (b, n)
+  simp only [o, h2, h3]
+  exact fill_all_or_nothing inv k e b n true events.flatten none hv hi
 
 /-! ## `too_many_vertices` -/
 
@@ -282,91 +267,78 @@ theorem skeleton_trace_fault_at_k {σ : Type} (S : Sink σ) (e : GErr) (k : Nat)
 example : (runQ bbSink [.v 0, .v 1, .t 0 1 1, .v 2] (BB.new ⟨[], []⟩ IndexTy.u16.cfg).begin []).err = none ∧
     nVerts [.v 0, .v 1, .t 0 1 1, .v 2] = 3 := by decide
 
-/-! ## `rect_circle_trace` — FALSE of the current code -/
+/-- **Stroke, fault at the k-th vertex** — exact: for EVERY `k` from 1 to the number of vertices the
+stroker requests (over all events), against the builder that refuses the `k`-th vertex the builder
+sees `begin · (the fault-free calls strictly before the k-th vertex) · refused vertex · abort` and
+nothing else, and the call returns that error. -/
+theorem skeleton_trace_stroke_fault_at_k {σ : Type} (S : Sink σ) (e : GErr) (k : Nat)
+    (events : List (List CReq)) (s : σ)
+    (hfree : (runQ S events.flatten (S.begin s) []).err = none) (h1 : 1 ≤ k) (h2 : k ≤ nVerts events.flatten) :
+    let o := strokeRun (S.refuseAt k e) events (s, 0)
+    let pre := runQ S (beforeKth k events.flatten) (S.begin s) []
+    o.trace = .begin :: pre.calls ++ [.vertex (.error e), .abort] ∧
+    o.result = some (.geometryBuilder e) ∧
+    o.st = (S.abort pre.st, k) := by
+  intro o pre
+  obtain ⟨e1, e2, e3⟩ := strokeRun_eq (S.refuseAt k e) events (s, 0)
+  simp only [o, e1, e2, e3]
+  exact skeleton_trace_fault_at_k S e k events.flatten none s hfree h1 h2
 
-/-- The statement one would like (same as for the general fill path) … -/
-def RectCircleTrace : Prop :=
-  ∀ (σ : Type) (S : Sink σ) (script : List CReq) (s : σ),
-    Protocol (shapeRun S script s).trace (shapeRun S script s).result
-
-/-- … fails: `fill_rectangle` against a builder that refuses the 3rd vertex emits
-`begin V V V!` and no terminator at all (the `?` leaves the function). -/
-theorem rect_circle_trace_witness :
-    (shapeRun (tieSink false 3 .tooManyVertices) rectScript (BB.new ⟨[], []⟩ IndexTy.u16.cfg, 0)).trace =
-      [.begin, .vertex (.ok 0), .vertex (.ok 1), .vertex (.error .tooManyVertices)] ∧
-    (shapeRun (tieSink false 3 .tooManyVertices) rectScript (BB.new ⟨[], []⟩ IndexTy.u16.cfg, 0)).result =
-      some (.geometryBuilder .tooManyVertices) ∧
-    ¬ RectCircleTrace := by
-  refine ⟨by decide, by decide, fun h => ?_⟩
-  have hp := h _ (tieSink false 3 .tooManyVertices) rectScript (BB.new ⟨[], []⟩ IndexTy.u16.cfg, 0)
-  have hc := (protocol_counts _ _ hp).2.2.1
-  revert hc
+example : let evs : List (List CReq) := [[], [.v 0, .v 1], [.v 2, .v 3, .t 0 1 3]]
+    (runQ bbSink evs.flatten (BB.new ⟨[], []⟩ IndexTy.u16.cfg).begin []).err = none ∧ nVerts evs.flatten = 4 ∧
+    (strokeRun (bbSink.refuseAt 3 .invalidVertex) evs (BB.new ⟨[], []⟩ IndexTy.u16.cfg, 0)).trace =
+      [.begin, .vertex (.ok 0), .vertex (.ok 1), .vertex (.error .invalidVertex), .abort] ∧
+    (strokeRun (bbSink.refuseAt 3 .invalidVertex) evs (BB.new ⟨[], []⟩ IndexTy.u16.cfg, 0)).pulled = 3 := by
   decide
 
-/-- The same for `fill_circle` (fault at the 6th vertex, i.e. inside `fill_border_radius`). -/
-theorem circle_trace_witness :
-    (circleRun (tieSink false 6 .invalidVertex) false 1 (BB.new ⟨[], []⟩ IndexTy.u16.cfg, 0)).trace =
-      [.begin, .vertex (.ok 0), .vertex (.ok 1), .vertex (.ok 2), .vertex (.ok 3), .tri 0 3 1, .tri 1 3 2,
-       .vertex (.ok 4), .tri 1 4 0, .vertex (.error .invalidVertex)] := by decide
+/-! ## `rect_circle_trace` -/
 
-/-- Consequence for the caller's buffers: they are NOT restored.  A `BuffersBuilder` whose index
-type allows 5 vertices, holding 2, overflows at the rectangle's 4th vertex: the call returns
-`TooManyVertices` and leaves 6 vertices behind (the reading-phase observation 65534 → 65536 for
-`u16`, scaled down). -/
-theorem rect_circle_buffers_witness :
-    let o := shapeRun (tieSink false 0 .tooManyVertices) rectScript (BB.new ⟨[100, 101], [0, 0, 1]⟩ ⟨5, 65536⟩, 0)
-    o.result = some (.geometryBuilder .tooManyVertices) ∧
-    o.st.1.buf.vertices = [100, 101, 0, 1, 2, 3] ∧ o.st.1.buf ≠ ⟨[100, 101], [0, 0, 1]⟩ := by decide
+/-- **Rectangle / circle fast paths** (`fill_rectangle`, `fill_circle`, any request sequence in
+their place): the same protocol as the general fill path, for every builder and every fault
+position — `begin · all · end` and `Ok`, or `begin · prefix_k · refused vertex · abort` and the error. -/
+theorem rect_circle_trace {σ : Type} (S : Sink σ) (script : List CReq) (s : σ) :
+    Protocol (shapeRun S script s).trace (shapeRun S script s).result := by
+  rw [shapeRun_eq]
+  exact skeleton_trace_fill S script none s
 
-/-- What does hold of the fast paths, for every builder and every fault position:
-* without a refusal the protocol is respected (`begin · all · end`, `Ok`);
-* with a refusal the error IS returned, the refused vertex is the last call the builder sees, and
-  the trace is `begin · prefix_k` — exactly the protocol trace with its `abort` missing.
-Missing with respect to `rect_circle_trace`: the terminator (and with it buffer restoration). -/
-theorem rect_circle_trace_partial {σ : Type} (S : Sink σ) (script : List CReq) (s : σ) :
-    ((shapeRun S script s).result = none → Protocol (shapeRun S script s).trace (shapeRun S script s).result) ∧
-    (∀ err, (shapeRun S script s).result = some err →
-      ∃ e, err = .geometryBuilder e ∧ (shapeRun S script s).trace ++ [.abort] = (shapeRunFixed S script s).trace ∧
-        Protocol ((shapeRun S script s).trace ++ [.abort]) (some err) ∧
-        (shapeRun S script s).trace.getLast? = some (.vertex (.error e))) := by
-  have hq := runQ_calls S script (S.begin s) []
-  unfold shapeRunFixed shapeRun tessellateImpl
-  dsimp only
-  revert hq
-  generalize runQ S script (S.begin s) [] = x
-  intro hq
-  cases hx : x.err with
-  | none =>
-    simp only [QCalls, hx] at hq
-    refine ⟨fun _ => by simpa [hx] using protocol_ok x.calls hq, fun err h => by simp [hx] at h⟩
-  | some e =>
-    simp only [QCalls, hx] at hq
-    obtain ⟨pre, hpre, hall⟩ := hq
-    refine ⟨fun h => by simp [hx] at h, fun err h => ?_⟩
-    simp only [hx, Option.some.injEq] at h
-    subst h
-    refine ⟨e, rfl, by simp [hx], ?_, ?_⟩
-    · have := protocol_refused pre [] e hall (by simp)
-      simpa [hx, hpre] using this
-    · simp only [hx, hpre]
-      rw [← List.cons_append, List.getLast?_append]
-      simp
+/-- The exact trace for the fault at the `k`-th vertex of a fast path. -/
+theorem rect_circle_trace_fault_at_k {σ : Type} (S : Sink σ) (e : GErr) (k : Nat) (script : List CReq) (s : σ)
+    (hfree : (runQ S script (S.begin s) []).err = none) (h1 : 1 ≤ k) (h2 : k ≤ nVerts script) :
+    let o := shapeRun (S.refuseAt k e) script (s, 0)
+    let pre := runQ S (beforeKth k script) (S.begin s) []
+    o.trace = .begin :: pre.calls ++ [.vertex (.error e), .abort] ∧
+    o.result = some (.geometryBuilder e) ∧
+    o.st = (S.abort pre.st, k) := by
+  intro o pre
+  simp only [o, shapeRun_eq]
+  exact skeleton_trace_fault_at_k S e k script none s hfree h1 h2
 
-/-- The repaired control flow (`fixes/C04-basic-shapes-abort.patch`: call `abort_geometry` before
-returning the error) satisfies the full statement, for every builder and every fault position … -/
-theorem rect_circle_trace_fixed {σ : Type} (S : Sink σ) (script : List CReq) (s : σ) :
-    Protocol (shapeRunFixed S script s).trace (shapeRunFixed S script s).result :=
-  skeleton_trace_fill S script none s
-
-/-- … and restores the buffers. -/
-theorem rect_circle_buffers_fixed (inv : Bool) (k : Nat) (e : GErr) (b : BB) (n : Nat) (script : List CReq)
+/-- **Fast paths, all-or-nothing**: with a `BuffersBuilder` output, for every fault position and
+for the builder's own overflow, an error leaves the caller's buffers exactly as they were; success
+only appends. -/
+theorem rect_circle_all_or_nothing (inv : Bool) (k : Nat) (e : GErr) (b : BB) (n : Nat) (script : List CReq)
     (hv : b.buf.vertices.length < idxMod) (hi : b.buf.indices.length < idxMod) :
-    (shapeRunFixed (tieSink inv k e) script (b, n)).result ≠ none →
-      (shapeRunFixed (tieSink inv k e) script (b, n)).st.1.buf = b.buf :=
-  (fill_all_or_nothing inv k e b n true script none hv hi).1
+    let o := shapeRun (tieSink inv k e) script (b, n)
+    (o.result ≠ none → o.st.1.buf = b.buf) ∧
+    (o.result = none → ∃ vs is, o.st.1.buf.vertices = b.buf.vertices ++ vs ∧
+        o.st.1.buf.indices = b.buf.indices ++ is) := by
+  intro o
+  simp only [o, shapeRun_eq]
+  exact fill_all_or_nothing inv k e b n true script none hv hi
 
-/-- The two fast paths only name vertices they have been given (rectangle; circle up to depth 4 by
-evaluation — the general statement is `circle_script_scoped`). -/
+/-- The inputs of the former witnesses, on the repaired control flow: refused 3rd vertex of the
+rectangle → `begin V V V! abort`; overflow at the rectangle's 4th vertex with two prior vertices →
+buffers restored. -/
+example :
+    (shapeRun (tieSink false 3 .tooManyVertices) rectScript (BB.new ⟨[], []⟩ IndexTy.u16.cfg, 0)).trace =
+      [.begin, .vertex (.ok 0), .vertex (.ok 1), .vertex (.error .tooManyVertices), .abort] ∧
+    (shapeRun (tieSink false 0 .tooManyVertices) rectScript
+        (BB.new ⟨[100, 101], [0, 0, 1]⟩ ⟨5, 65536⟩, 0)).st.1.buf = ⟨[100, 101], [0, 0, 1]⟩ ∧
+    (shapeRun (tieSink false 0 .tooManyVertices) rectScript
+        (BB.new ⟨[100, 101], [0, 0, 1]⟩ ⟨5, 65536⟩, 0)).result = some (.geometryBuilder .tooManyVertices) := by
+  decide
+
+/-- The rectangle script only names vertices it has been given (the circle: `circle_script_scoped`). -/
 theorem rect_script_scoped : wellScoped 0 rectScript = true := by decide
 
 theorem circle_script_counts :
@@ -444,35 +416,16 @@ theorem ids_fresh_fill {σ : Type} (S : Sink σ) (core : List CReq) (coreErr : O
       show idsFresh [] (x.calls ++ [.endG]) = true
       rw [idsFresh_append_term _ rfl]; exact h
 
-/-- **`ids_fresh`, stroke — partial**: the same up to the first refused vertex, and for the whole
-trace when nothing is refused.  Missing: the requests issued between a latched error and the
-abort (`post`).  The real stroker does hand `VertexId::INVALID` to `add_triangle` there (finding
-`C04-stroke-invalid-id-after-refusal`); the model leaves `post` arbitrary, so nothing is claimed. -/
-theorem stroke_ids_fresh_partial {σ : Type} (S : Sink σ) (events : List (List CReq)) (s : σ)
+/-- **`ids_fresh`, stroke** (full): a stroker core that names only vertices it has requested makes
+the skeleton issue only triangles whose ids were returned since `begin_geometry` — for every
+builder, every fault position, over the WHOLE trace (nothing is issued after a latched error). -/
+theorem stroke_ids_fresh {σ : Type} (S : Sink σ) (events : List (List CReq)) (s : σ)
     (hw : wellScoped 0 events.flatten = true) :
-    idsFresh [] (strokeRun S events [] s).trace = true := by
-  have h := strokeEvents_fresh S events (S.begin s) [] hw
-  unfold strokeRun
-  dsimp only
-  revert h
-  generalize strokeEvents S events (S.begin s) [] = x
-  intro h
-  cases hx : x.err with
-  | some e =>
-    simp only [hx, runIgn, List.append_nil]
-    show idsFresh [] (x.calls ++ [.abort]) = true
-    rw [idsFresh_append_term _ rfl]; exact h
-  | none =>
-    simp only [hx]
-    show idsFresh [] (x.calls ++ [.endG]) = true
-    rw [idsFresh_append_term _ rfl]; exact h
+    idsFresh [] (strokeRun S events s).trace = true := by
+  rw [(strokeRun_eq S events s).1]
+  exact ids_fresh_fill S events.flatten none s hw
 
-/-- A post-error request sequence that is not well-scoped reaches the builder as
-`VertexId::INVALID` — the shape of the real finding. -/
-theorem stroke_ids_fresh_witness :
-    (strokeRun (tieSink false 1 .invalidVertex) [[.v 0]] [.v 1, .v 2, .t 1 0 7]
-        (BB.new ⟨[], []⟩ IndexTy.u32.cfg, 0)).trace =
-      [.begin, .vertex (.error .invalidVertex), .vertex (.ok 0), .vertex (.ok 1), .tri 1 0 4294967295, .abort] := by
+example : wellScoped 0 ([[], [CReq.v 0, .v 1], [.v 2, .v 3, .t 0 1 3]] : List (List CReq)).flatten = true := by
   decide
 
 /-! ## `offset_shift` -/
@@ -517,21 +470,8 @@ ids returned since `begin_geometry`. -/
 theorem ids_fresh_shapes {σ : Type} (S : Sink σ) (s : σ) (n : Nat) :
     idsFresh [] (shapeRun S rectScript s).trace = true ∧
     idsFresh [] (shapeRun S (circleScript n) s).trace = true := by
-  have key : ∀ script, wellScoped 0 script = true → idsFresh [] (shapeRun S script s).trace = true := by
-    intro script hw
-    have h := runQ_fresh S script (S.begin s) [] hw
-    unfold shapeRun
-    dsimp only
-    revert h
-    generalize runQ S script (S.begin s) [] = x
-    intro h
-    cases hx : x.err with
-    | some e => simpa [hx, idsFresh] using h
-    | none =>
-      simp only [hx]
-      show idsFresh [] (x.calls ++ [.endG]) = true
-      rw [idsFresh_append_term _ rfl]; exact h
-  exact ⟨key _ rect_script_scoped, key _ (circle_script_scoped n)⟩
+  rw [shapeRun_eq, shapeRun_eq]
+  exact ⟨ids_fresh_fill S _ none s rect_script_scoped, ids_fresh_fill S _ none s (circle_script_scoped n)⟩
 
 /-! ## Non-vacuity of the hypotheses used above -/
 
@@ -547,12 +487,93 @@ example :
     o.trace = [.begin, .vertex (.ok 3), .vertex (.error .invalidVertex), .abort] := by decide
 
 example :
-    let o := strokeRun (tieSink false 2 .tooManyVertices) [[.v 0], [.v 1, .v 2], [.v 3]] [.v 9, .t 0 1 1]
+    let o := strokeRun (tieSink false 2 .tooManyVertices) [[.v 0], [.v 1, .v 2], [.v 3]]
               (BB.new ⟨[1, 2, 3], [0, 1, 2]⟩ IndexTy.u16.cfg, 0)
     o.result = some (.geometryBuilder .tooManyVertices) ∧ o.st.1.buf = ⟨[1, 2, 3], [0, 1, 2]⟩ ∧ o.pulled = 2 ∧
-    o.trace = [.begin, .vertex (.ok 3), .vertex (.error .tooManyVertices), .vertex (.ok 4), .tri 3 4 4, .abort] := by
+    o.trace = [.begin, .vertex (.ok 3), .vertex (.error .tooManyVertices), .abort] := by
   decide
 
 example : wellScoped 0 (circleScript 2) = true ∧ nVerts (circleScript 2) = 16 := by decide
+
+/-! ## Skeleton runs are builder-call sequences; success gives valid indices -/
+
+/-- What a skeleton does to a builder is a sequence of direct vertex / triangle calls
+(`lower`, body calls only): `Sink.exec` on it reproduces `runQ`'s final state and recorded calls —
+so the `BuffersBuilder`-level theorems (`buffers_abort_restores`, `buffers_end_extends`) apply to
+every fill, stroke and fast-path run. -/
+theorem exec_eq_runQ {σ : Type} (S : Sink σ) (core : List CReq) (s : σ) (ids : List Nat) :
+    (∀ o ∈ lower S core s ids, Op.isBody o = true) ∧
+    S.exec (lower S core s ids) s = ((runQ S core s ids).st, (runQ S core s ids).calls) :=
+  ⟨lower_body S core s ids, exec_lower S core s ids⟩
+
+/-- **Success: all new indices point at new vertices** — fill skeleton (and, by `strokeRun_eq` /
+`shapeRun_eq`, the stroke and fast-path skeletons) into a `BuffersBuilder` with any prior contents
+and vertex offset, any well-scoped core: if the call returns `Ok`, the old vertices and indices are
+an untouched prefix and every new index minus the offset lies in `[old_len, new_len)` (no wrap of
+`id + offset` in `u32` / the index type assumed). -/
+theorem fill_success_indices_valid (b : BB) (core : List CReq) (hw : wellScoped 0 core = true)
+    (hv : b.buf.vertices.length < idxMod)
+    (hw1 : (tessellateImpl bbSink true core none b).st.buf.vertices.length + b.vertexOffset ≤ idxMod)
+    (hw2 : (tessellateImpl bbSink true core none b).st.buf.vertices.length + b.vertexOffset ≤ b.cfg.modulus)
+    (hok : (tessellateImpl bbSink true core none b).result = none) :
+    let f := (tessellateImpl bbSink true core none b).st.buf
+    ∃ vs is, f.vertices = b.buf.vertices ++ vs ∧ f.indices = b.buf.indices ++ is ∧
+      ∀ i ∈ is, b.buf.vertices.length + b.vertexOffset ≤ i ∧ i < f.vertices.length + b.vertexOffset := by
+  intro f
+  have hfresh := runQ_fresh bbSink core b.begin [] hw
+  have hex := exec_lower bbSink core b.begin []
+  have hst : (tessellateImpl bbSink true core none b).st = (runQ bbSink core b.begin []).st := by
+    have hb : bbSink.begin b = b.begin := rfl
+    revert hok
+    simp only [tessellateImpl, Bool.not_true, Bool.false_eq_true, if_false, hb]
+    cases (runQ bbSink core b.begin []).err <;> simp [bbSink, BB.endG]
+  have h1 : (bbSink.exec (lower bbSink core b.begin []) b.begin).1 = (runQ bbSink core b.begin []).st := by
+    rw [hex]
+  have h2 : (bbSink.exec (lower bbSink core b.begin []) b.begin).2 = (runQ bbSink core b.begin []).calls := by
+    rw [hex]
+  have := buffers_end_extends b (lower bbSink core b.begin []) (lower_body _ _ _ _) hv
+    (by rw [h2]; exact hfresh) (by rw [h1, ← hst]; exact hw1) (by rw [h1, ← hst]; exact hw2)
+  simp only [h1, BB.endG] at this
+  simpa [f, hst] using this
+
+example : let b := BB.new ⟨[9, 9], [0, 1, 0]⟩ IndexTy.u16.cfg
+    wellScoped 0 [.v 0, .v 1, .v 2, .t 0 1 2] = true ∧
+    (tessellateImpl bbSink true [.v 0, .v 1, .v 2, .t 0 1 2] none b).result = none ∧
+    (tessellateImpl bbSink true [.v 0, .v 1, .v 2, .t 0 1 2] none b).st.buf = ⟨[9, 9, 0, 1, 2], [0, 1, 0, 2, 3, 4]⟩ := by
+  decide
+
+/-! ## Decidable protocol checker -/
+
+/-- `protocolB` decides `Protocol`: a trace/result pair passes the executable check iff it has the
+shape the property demands. -/
+theorem protocol_checker_sound (tr : List Call) (res : Option TErr) :
+    protocolB tr res = true ↔ Protocol tr res := by
+  constructor
+  · intro h
+    simp only [protocolB, Bool.and_eq_true] at h
+    obtain ⟨h1, h2⟩ := h
+    cases tr with
+    | nil => simp at h1
+    | cons c rest =>
+      cases c <;> try (simp at h1)
+      obtain ⟨body, term, hl, hb, hc⟩ := (bodyThenTerm_iff res rest).mp h1
+      refine ⟨⟨body, term, by simp [hl], hb, hc⟩, ?_⟩
+      intro e he
+      rw [he] at h2
+      simpa using h2
+  · intro h
+    obtain ⟨body, term, hl, hb, hc⟩ := h.shape
+    simp only [protocolB, Bool.and_eq_true]
+    constructor
+    · subst hl
+      exact (bodyThenTerm_iff res (body ++ [term])).mpr ⟨body, term, rfl, hb, hc⟩
+    · cases hf : firstRefusal tr with
+      | none => rfl
+      | some e => simpa using h.first_error e hf
+
+example : protocolB [.begin, .vertex (.ok 0), .vertex (.error .invalidVertex), .abort]
+      (some (.geometryBuilder .invalidVertex)) = true ∧
+    protocolB [.begin, .vertex (.ok 0), .vertex (.error .invalidVertex)] (some (.geometryBuilder .invalidVertex)) = false ∧
+    protocolB [.begin, .vertex (.ok 0), .endG, .tri 0 0 0] none = false := by decide
 
 end Lyon.C04
